@@ -255,7 +255,8 @@ class Contrasts(metaclass=InterfaceMeta):
 
         # Short-circuit when we know the output encoding will be empty
         if not levels or len(levels) == 1 and reduced_rank:
-            if output == "pandas":
+            if output in ("pandas", "narwhals"):
+                # `narwhals` output is assembled from pandas-encoded columns
                 encoded = pandas.DataFrame(
                     index=(
                         dummies.index
